@@ -262,11 +262,15 @@ def tfel_check_layer(ck, rng, built, objs):
     a test succeeds iff all its commands do, tfel-check exits with 0 iff all tests succeed"""
     import re
     binary = build_tfel_check(ck, built, objs)
-    suites = [(1, 6), (4, 14), (8, 20)] if ck.quick else [(1, 30), (2, 40), (4, 60), (8, 80), (16, 80)]
+    # (jobs, tests, --discard-commands-failure): by default (true) the failure of a command is discarded when the test
+    # has comparisons and they succeed (docs/web/tfel-check.md); without comparisons it is never ignored
+    suites = [(1, 6, None), (4, 14, False), (8, 20, None)] if ck.quick else \
+             [(1, 30, None), (2, 40, False), (4, 60, None), (8, 80, False), (16, 80, None)]
     stats = {"commands": 0, "tests": 0, "suites": 0, "kinds": {}}
     reported = set()
     strip = lambda t: re.sub(r"\x1b\[[0-9;]*m", "", t)
-    for si, (jobs, ntests) in enumerate(suites):
+    for si, (jobs, ntests, discard) in enumerate(suites):
+        discarded = discard is None or discard
         d = ck.path("tc", "suite%d" % si)
         shutil.rmtree(d, ignore_errors=True)
         os.makedirs(d)
@@ -283,15 +287,16 @@ def tfel_check_layer(ck, rng, built, objs):
             # (on a command that succeeds the option changes nothing in this tree: not generated)
             sf = [TC_KINDS[k][1] != "e0" and rng.random() < 0.3 for k in kinds]
             tests["t%d" % t] = list(zip(kinds, sf))
-            # a comparison that always passes (a file against itself) on some tests: a failing command must
-            # still fail the test (commands' failures are only discarded on request)
+            # a comparison that always passes (a file against itself) on some tests: the failure of a command
+            # then fails the test only with --discard-commands-failure=false
             with_cmp = rng.random() < 0.35
             compared["t%d" % t] = with_cmp
             with open(os.path.join(d, "t%d.check" % t), "w") as f:
                 f.write(check_text(zip(kinds, sf)) + (COMPARISON if with_cmp else ""))
         import subprocess
         try:
-            p = ck.run([binary, "--jobs=%d" % jobs] + ["t%d.check" % t for t in range(ntests)], cwd=d, timeout=240)
+            p = ck.run([binary, "--jobs=%d" % jobs] + ([] if discard is None else ["--discard-commands-failure=%s" % str(discard).lower()]) +
+                       ["t%d.check" % t for t in range(ntests)], cwd=d, timeout=240)
         except subprocess.TimeoutExpired:
             key = "corr:tfel-check/src/tfel-check.cxx:hang"
             if key not in reported:
@@ -312,13 +317,14 @@ def tfel_check_layer(ck, rng, built, objs):
         for name, cmds in tests.items():
             stats["tests"] += 1
             kinds = [k for k, _ in cmds]
-            want_test = all(TC_KINDS[k][1] == "e0" or f for k, f in cmds)
+            want_test = all(TC_KINDS[k][1] == "e0" or f for k, f in cmds) or (compared[name] and discarded)
             all_ok = all_ok and want_test
             m = re.search(r"\* end of test '\./%s\.check'\s*\[\s*(SUCCESS|FAILED)\]" % name, log)
             got_test = m.group(1) if m else "missing"
             cl = os.path.join(d, name + ".checklog")
             clog = strip(open(cl).read()) if os.path.exists(cl) else ""
             rep = {"site": "tfel-check/src/TestLauncher.cxx, tfel-check/src/tfel-check.cxx", "jobs": jobs,
+                   "discard_commands_failure": "default (true)" if discard is None else discard,
                    "check_file": check_text(cmds) + (COMPARISON if compared[name] else ""),
                    "scripts": {k + ".sh": TC_KINDS[k][0] for k in kinds}, "test_verdict": got_test,
                    "test_log": clog[-1500:], "tfel_check_exit_status": p.returncode}
